@@ -19,6 +19,16 @@ fn units(thorough: bool) -> Vec<Unit> {
     for ends in base {
         out.push(Unit { alpha: order_alphabet(&ends), positive: true, nasty: false, ends });
     }
+    // long lists (binary-search style implementations have length-dependent paths)
+    for n in 6..=(if thorough { 40 } else { 17 }) {
+        let ends: Vec<f64> = (1..=n).map(|i| i as f64).collect();
+        out.push(Unit { alpha: order_alphabet(&ends), positive: true, nasty: false, ends });
+        // the same with a run of duplicates in the middle and at the end
+        let mut d: Vec<f64> = (1..=n).map(|i| i as f64).collect();
+        d[n / 2] = d[n / 2 - 1];
+        d[n - 1] = d[n - 2];
+        out.push(Unit { alpha: order_alphabet(&d), positive: true, nasty: false, ends: d });
+    }
     for ends in shapes(&nasty_values(), if thorough { 5 } else { 4 }) {
         out.push(Unit { alpha: order_alphabet(&ends), positive: false, nasty: true, ends });
     }
@@ -30,7 +40,10 @@ fn one<T: Evaluate>(pw: &Piecewise<T>, ends: &[f64], x: f64, kind: &str, cx: &mu
     cx.evals(1);
     let i = ref_index(ends, x);
     let want = pw.segments[i].evaluate(x);
-    let detail = |got: String| json!({"ends": fjs(ends), "piece_type": kind, "x": fj(x), "reference_segment": i, "expected": fj(want), "got": got});
+    let detail = |got: String| {
+        let body = format!("    let x = {};\n    assert_eq!(pw.evaluate(x), {}.0, \"first segment whose end is > x, else the last\");", lit(x), i);
+        json!({"ends": fjs(ends), "piece_type": kind, "x": fj(x), "reference_segment": i, "expected": fj(want), "got": got, "rust_repro": repro(ends, &body)})
+    };
     match got {
         Err(p) => Err(Fail::new(format!("Piecewise::evaluate panicked on a well-formed function: {p}"), detail(p.clone()))),
         Ok(g) if !bits_eq(g, want) => Err(Fail::new(
@@ -108,6 +121,7 @@ pub fn check(thorough: bool, _seed: u64) -> Check {
         bounds: json!({
             "shapes": if thorough {"all non-decreasing end lists of length 1..6 over {1..6} and of length 1..5 over the nasty set {-MAX,-1,-2^-1022,-0.0,+0.0,5e-324,1,succ(1),1e300,MAX,+inf}"}
                       else {"all non-decreasing end lists of length 1..5 over {1..5} and of length 1..4 over the nasty set {-MAX,-1,-2^-1022,-0.0,+0.0,5e-324,1,succ(1),1e300,MAX,+inf}"},
+            "long_lists": "1..n for n=6..17 (40 thorough), plain and with duplicate runs in the middle and at the end",
             "queries": "order-complete alphabet A(ends): -inf,-MAX, below first end, each end and both one-ulp neighbours, >=2 interior points per cell, above last end, MAX, +inf",
             "piece_types": "Probe (identifies piece and argument), Poly1, Poly3, Log<Poly8> (positive ends only)"
         }),
